@@ -35,7 +35,11 @@ pub fn par_runs<R: Send, F: Fn(u64) -> R + Sync>(n: u64, f: F) -> Vec<R> {
                         if std::env::var("VERIF_DEBUG").is_ok() {
                             eprintln!("run {}", i);
                         }
-                        local.push((i, f(i)));
+                        let r = f(i);
+                        if std::env::var("VERIF_DEBUG").is_ok() {
+                            eprintln!("done {}", i);
+                        }
+                        local.push((i, r));
                         if local.len() >= 64 {
                             results.lock().unwrap().append(&mut local);
                         }
